@@ -1895,8 +1895,8 @@ class Cap(object):
         self.nstates += 1
         if self.nstates > 150000:
             raise TooManyStates()
-        if self.deadline is not None and (self.nstates & 63) == 0 and time.time() > self.deadline:
-            raise TooManyStates()          # wall-clock budget of this function used up: the exploration is partial (noted)
+        if self.deadline is not None and (self.nstates & 63) == 0 and time.process_time() > self.deadline:
+            raise TooManyStates()          # CPU-time budget of this function used up (process time, so the result does not depend on the load of the machine): the exploration is partial (noted)
         k = n.get("k")
         out = {"norm": [], "brk": [], "cont": [], "ret": []}
         if k == "block":
@@ -2723,7 +2723,7 @@ class Cap(object):
         for st in entry_states:
             self.nstates = 0
             if self.time_budget is not None and self.deadline is None:
-                self.deadline = time.time() + self.time_budget
+                self.deadline = time.process_time() + self.time_budget
             try:
                 o = self.exec(fn.body, st)
             except TooManyStates:
